@@ -53,6 +53,16 @@ structure Reply where
   body : Option Nat            -- the response message, if one is written
 deriving DecidableEq, Repr
 
+/-- the code `handleMethod` renders for the handler's error: a status error keeps its code, context
+    errors map to Canceled / DeadlineExceeded, any other error is Unknown; a non-nil error whose
+    status says OK becomes Internal -/
+def baseCode : HErr → Nat
+  | .status c => c
+  | .plain => 2
+  | .ctx r => codeOf r
+
+def unaryCode (e : HErr) : Nat := if baseCode e == 0 && Gen.unaryOkRewrite then 13 else baseCode e
+
 /-- `handleMethod` from the handler's call on: headers and trailers are written whatever the
     outcome; an error is rendered with its code (OK rewritten to Internal), a response that does
     not marshal is a bare 500 -/
@@ -60,7 +70,8 @@ def serve (ops : List HOp) (ret : Ret) (ctxDone : Bool) : Reply × List Res :=
   let (s, rs) := runOps {} ops
   match ret with
   | .err e =>
-    let c := HttpServerStream.trailerCode (some e)
+    -- (handleMethod has its own copy of the OK → Internal rewrite; its presence is regenerated)
+    let c := unaryCode e
     ({ httpStatus := Codes.defaultRendererStatus c ctxDone, grpcCode := some c, hdr := s.hdrs, tlr := s.tlrs, body := none }, rs)
   | .resp m true => ({ httpStatus := 200, grpcCode := none, hdr := s.hdrs, tlr := s.tlrs, body := some m }, rs)
   | .resp _ false => ({ httpStatus := 500, grpcCode := none, hdr := s.hdrs, tlr := s.tlrs, body := none }, rs)
@@ -77,8 +88,10 @@ def client (r : Reply) : Seen :=
   let code := match r.grpcCode with
     | some c => c
     | none => Codes.codeFromHttpStatus r.httpStatus
+  -- (the order "metadata before status" is regenerated from Channel.Invoke)
+  let early := code != 0 && !Gen.unaryClientMetadataBeforeStatus
   { result := if code != 0 then .status code else (match r.body with | some m => .msg m | none => .ok),
-    hdr := r.hdr, tlr := r.tlr }
+    hdr := if early then [] else r.hdr, tlr := if early then [] else r.tlr }
 
 /-- the metadata of the SetHeader / SendHeader calls that returned nil -/
 def okHdr : List HOp → List Res → List Nat
